@@ -230,6 +230,11 @@ type inst struct {
 	retired   bool // the caller's buffer its text lived in was given to another object: its life is over
 	bufLoaded bool // the text has been copied into the caller's buffer (content() was called)
 	nEx       int  // number of Example() calls made on an rschema
+
+	// its type objects are registered with another schema of the world as well: an
+	// explicit mutator (ensureap) is applied to its own tree only - what a caller does
+	// to an object it shares shows in everybody who shares it, by design (FA12)
+	sharesTypes bool
 }
 
 const maxRegexExamples = 4
@@ -463,7 +468,7 @@ func (in *inst) rawCall(kind string, sharedObj bool) (key string, out outcome) {
 				return key, outcome{obs: "n/a"}
 			}
 			_ = s.Check()
-			return key, outcome{obs: ensureAPText(in.js)}
+			return key, outcome{obs: ensureAPText(in.js, !in.sharesTypes)}
 		case "vany":
 			return key, outcome{obs: safeStr(func() string {
 				var sb strings.Builder
@@ -897,7 +902,7 @@ func walkNodes(n ischema.Node, depth int, f func(ischema.Node)) {
 	}
 }
 
-func ensureAPText(js *jschema.JSchema) string {
+func ensureAPText(js *jschema.JSchema, intoTypes bool) string {
 	return safeStr(func() string {
 		if js.Inner == nil {
 			return "<no inner>"
@@ -918,6 +923,9 @@ func ensureAPText(js *jschema.JSchema) string {
 		}
 		sb.WriteString("root: ")
 		walkNodes(js.Inner.RootNode(), 0, visit)
+		if !intoTypes {
+			return sb.String()
+		}
 		types := js.Inner.TypesList()
 		for _, name := range sortedNamedTypes(js) {
 			sb.WriteString(" type " + name + ": ")
